@@ -128,6 +128,15 @@ let () =
                 insync := false
               end
             end
+          end else if String.length op_s > 2 && String.sub op_s 0 2 = "G " then begin
+            (* float maxDegree of the Go code against the model's exact 1 + max{d | phi^d <= n}
+               (the loop of [max_degree] with fuel 64, enough for n < phi^64) *)
+            let nn = int_of_string (String.sub op_s 2 (String.length op_s - 2)) in
+            let z x = z_of_int x in
+            let m = int_of_z (max_degree_go (nat_of_int 64) (z 0) (z 2) (z 0) (z 1) (z 1) (z nn)) in
+            bump "maxdegree_values" 1;
+            if res <> "?" && res <> string_of_int m then
+              report "fidelity" (Printf.sprintf "maxDegree(%d): implementation %s, model %d" nn res m)
           end else if op_s = "V" then begin
             if res = "f" then bump ("verify_false_" ^ impl_s) 1
           end else
